@@ -161,6 +161,13 @@ def _assign(free, tables):
     return {n: tables[i % len(tables)] ^ (i // len(tables)) for i, n in enumerate(free)}, 64
 
 
+class _Vals(dict):
+    """Simulation result whose missing keys are a property violation (io_map names a node that does not exist)."""
+
+    def __missing__(self, k):
+        raise Violation("io_map|unknown_node", f"io_map refers to {k!r}, which is not a node of the unrolled circuit")
+
+
 def _check_iomap(io_map, ios, n, what):
     if set(io_map) != set(ios):
         raise Violation(f"{what}|io_map_keys", f"io_map keys {sorted(io_map)} != io nodes {sorted(ios)}")
@@ -196,7 +203,7 @@ def check(case, ctx):
         if set(uc.inputs()) != exp_free:
             raise Violation("unroll|inputs", "inputs() of the unrolled circuit differ from the free signals")
         asg, W = _assign(free, case["tables"])
-        val = refsim.simulate(uc, asg, W)
+        val = _Vals(refsim.simulate(uc, asg, W))
         prev = None
         dep = False
         for t in range(n):
@@ -218,7 +225,7 @@ def check(case, ctx):
             prev = cur
         for o in outs:
             for t in range(n):
-                if not uc.graph.nodes[io_map[o][t]].get("output"):
+                if io_map[o][t] not in uc.graph.nodes or not uc.graph.nodes[io_map[o][t]].get("output"):
                     raise Violation("unroll|output_mark", f"{io_map[o][t]!r} is not marked as output")
         nontriv = n >= 2 and bool(state)
         return {"nontrivial": nontriv, "labels": ["unroll", f"state_{min(len(state), 3)}"]}
@@ -302,7 +309,7 @@ def check(case, ctx):
         raise Violation("seq_unroll|free_signals", f"free signals differ from per-step inputs + free initial state: {sorted(set(free) ^ exp_free)}")
     asg, W = _assign(free, case["tables"])
     full = (1 << W) - 1
-    val = refsim.simulate(uc, asg, W)
+    val = _Vals(refsim.simulate(uc, asg, W))
     state = {}
     for f in flops:
         iv = init_of(f)
@@ -324,7 +331,7 @@ def check(case, ctx):
                 raise Violation("seq_unroll|q_value", f"Q of {f} at cycle {t} differs from cycle-accurate state (init={init})")
             if val[io_map[f"{f}_{d}"][t]] != cur[f"{f}.{d}"]:
                 raise Violation("seq_unroll|d_value", f"D of {f} at cycle {t} differs from cycle-accurate value")
-            isout = bool(uc.graph.nodes[io_map[f"{f}_{d}"][t]].get("output"))
+            isout = bool(uc.graph.nodes.get(io_map[f"{f}_{d}"][t], {}).get("output"))
             if isout != bool(case["afo"]):
                 raise Violation("seq_unroll|flop_output_mark", f"D copy of {f} at cycle {t}: output={isout}, add_flop_outputs={case['afo']}")
         state = {f: cur[f"{f}.{d}"] for f in flops}
